@@ -1,187 +1,21 @@
 """C02 -- basic real arithmetic is correctly rounded in every rounding mode.
 
-M1: RoundingLemmas (the oracle's forms agree on a small universe) and MpfMachine
-    (transcribed libmp algorithms => postconditions, exhaustive MiniFloat).
+M1: RoundingLemmas (the oracle's checker and functional forms agree on a small universe).
 M3: real-size events through four entry levels (libmp function, operator, f-function with
     prec/rounding/exact keywords, constructor), each judged by TLC with MpfPost on limbs."""
-import fractions
-from .. import core, tlc, gen, cases, enc
-from ..cases import A_f, A_z, A_d, A_q, A_l, case
+from .. import core, gen, cases, arith
+from . import common
 
-PROP = "C02"
-BINOPS = ["add", "sub", "mul", "div"]
-
-
-def gen_cases(g, n):
-    r = g.r
-    out = []
-    while len(out) < n:
-        p = g.prec(big=r.random() < 0.1)
-        rnd = g.mode()
-        c = r.random()
-        if c < 0.55:
-            op = r.choice(BINOPS)
-            x, y = g.pair(p)
-            lvl = r.choice(["libmp", "libmp", "oper", "ffun"])
-            if lvl == "oper":
-                rnd = "n"
-            t = r.random()
-            if lvl != "libmp" and t < 0.2 and y[1] and y[2] >= 0 and y[2] < 64:
-                # int right/left operand
-                n_ = (-1) ** y[0] * (y[1] << y[2])
-                args = [A_f(x), A_z(n_)] if r.random() < 0.5 else [A_z(n_), A_f(x)]
-                if args[0][0] == "z" and lvl == "ffun":
-                    pass
-            elif lvl != "libmp" and t < 0.35:
-                fl = r.choice([0.1, -2.5, 1e300, 5e-324, 3.0, -1e-200, float(r.getrandbits(60)), r.random()])
-                args = [A_f(x), A_d(fl)] if r.random() < 0.5 else [A_d(fl), A_f(x)]
-            else:
-                args = [A_f(x), A_f(y)]
-            kw = {}
-            if lvl == "ffun" and r.random() < 0.15 and op != "div":
-                # exact / prec=inf: keep the exponent gap materialisable
-                if args[0][0] == "f" and args[1][0] == "f" and abs(args[0][3] - args[1][3]) < 20000:
-                    kw = {"exact": True} if r.random() < 0.5 else {"inf": True}
-            out.append(case(op, lvl, args, p, rnd, **kw))
-        elif c < 0.63:
-            x = g.mpf(p, neg=0.0)
-            if x == gen.FNINF:
-                x = gen.FINF
-            lvl = r.choice(["libmp", "oper", "ffun"])
-            out.append(case("sqrt", lvl, [A_f(x)], p, "n" if lvl == "oper" else rnd))
-        elif c < 0.73:
-            x = g.mpf(p)
-            op = r.choice(["pos", "neg", "abs"])
-            lvl = r.choice(["libmp", "oper"] + (["ffun"] if op == "neg" else []) + (["ctor"] if op == "pos" else []))
-            out.append(case(op, lvl, [A_f(x)], p, "n" if lvl == "oper" else rnd))
-        elif c < 0.8:
-            nb = g.bits(p)
-            n_ = g.mant(nb, p) << r.choice([0, 0, 1, 7, r.randint(0, 300)])
-            if r.random() < 0.5:
-                n_ = -n_
-            if r.random() < 0.05:
-                n_ = 0
-            lvl = r.choice(["libmp", "ctor", "oper"])
-            out.append(case("from_int", lvl, [A_z(n_)], p, "n" if lvl == "oper" else rnd))
-        elif c < 0.87:
-            pn = g.mant(g.bits(p), p) * r.choice([1, -1])
-            qn = g.mant(g.bits(p), p)
-            lvl = r.choice(["libmp", "oper"])
-            out.append(case("from_rational", lvl, [A_q(pn, qn)], p, "n" if lvl == "oper" else rnd))
-        elif c < 0.9:
-            fl = r.choice([0.1, -2.5, 1e300, 5e-324, 2.2250738585072014e-308, 1.7976931348623157e308,
-                           float("inf"), float("-inf"), r.random() * 2 ** r.randint(-1000, 1000), -0.0])
-            lvl = r.choice(["libmp", "ctor"])
-            out.append(case("from_float", lvl, [A_d(fl)], p, rnd))
-        elif c < 0.94:
-            op = r.choice(["mulint", "rdivint"])
-            x = g.mpf(p)
-            n_ = r.choice([0, 1, -1, 3, 1023, 1024, -7]) if r.random() < 0.5 else g.mant(g.bits(p), p) * r.choice([1, -1])
-            args = [A_f(x), A_z(n_)] if op == "mulint" else [A_z(n_), A_f(x)]
-            out.append(case(op, "libmp", args, p, rnd))
-        else:
-            # fsum / fdot under the stated side condition: terms <= p bits, magnitudes span < p bits
-            k = r.randint(1, 8)
-            top = r.randint(-50, 50)
-            terms = []
-            for _ in range(k):
-                nb = r.randint(1, p)
-                m = g.mant(nb, p) * r.choice([1, -1])
-                span = r.randint(0, max(0, p - 1))
-                terms.append(gen.mk(m, top - span - nb))
-            if r.random() < 0.6:
-                lvl = r.choice(["libmp", "oper"])
-                out.append(case("sum", lvl, [A_l([A_f(t) for t in terms])], p, "n" if lvl == "oper" else rnd))
-            else:
-                ys = [gen.mk(g.mant(r.randint(1, 4), p) * r.choice([1, -1]), r.randint(-2, 2)) for _ in terms]
-                # products must still satisfy the side condition: few-bit multipliers, p bits in total
-                terms2 = [gen.mk(g.mant(r.randint(1, max(1, p - 4)), p) * r.choice([1, -1]), top - r.randint(0, 3)) for _ in terms]
-                out.append(case("dot", "oper", [A_l([A_f(t) for t in terms2]), A_l([A_f(t) for t in ys])], p, "n"))
-    return out
-
-
-def side_ok(c):
-    """C02's side condition for fsum/fdot is enforced by construction for 'sum'; for 'dot' the
-    exact products may exceed p bits, which the statement excludes -- keep only conforming cases."""
-    if c["op"] != "dot":
-        return True
-    p = c["p"]
-    xs, ys = c["args"][0][1], c["args"][1][1]
-    prods = []
-    for x, y in zip(xs, ys):
-        if x[2] == 0 or y[2] == 0:
-            continue
-        m = x[2] * y[2]
-        prods.append((m.bit_length(), x[3] + y[3]))
-    if not prods:
-        return True
-    if any(b > p for b, _ in prods):
-        return False
-    tops = [b + e for b, e in prods]
-    lows = [e for _, e in prods]
-    return max(tops) - min(lows) < p
-
-
-def nontrivial(c, ev):
-    """an event is non-trivial when both operands are finite nonzero and the outcome is a finite
-    nonzero number (so a rounding decision or an exact-fit decision was actually made)"""
-    o = ev["o"]
-    return o["k"] == "f" and len(o["m"]) > 0 and all(a.get("k") != "f" or len(a["m"]) > 0 for a in ev["a"])
-
-
-def key_of(c, clauses):
-    sig = ""
-    if c["op"] in ("add", "sub") and all(a[0] == "f" for a in c["args"]):
-        x, y = c["args"]
-        if x[2] and y[2]:
-            big, small = (x, y) if x[3] + x[4] >= y[3] + y[4] else (y, x)
-            if big[4] > c["p"] and abs(x[3] - y[3]) > 100:
-                sig = "/bc>prec&gap>100"
-    return "%s/%s/%s%s" % (c["op"], c["lvl"], "+".join(sorted(clauses)), sig)
-
-
-def run_events(chk, cs, runner, judge_clause="post"):
-    events, kept = [], []
-    for i, c in enumerate(cs):
-        out = runner.run(c)
-        try:
-            ev = cases.to_event(i, c, out)
-        except (enc.EncodeRange, TypeError):
-            continue
-        events.append(ev); kept.append((i, c))
-    bad = tlc.judge(events, tag=chk.prop)
-    byid = dict(kept)
-    for ev in events:
-        c = byid[ev["id"]]
-        chk.count()
-        chk.distinct((c["op"], c["lvl"], c["args"], c["p"], c["r"]), nontrivial(c, ev))
-    chk.add_traces(len(events))
-    return events, bad, byid
+PROP = "C02"; LEVEL = "model_checking"
 
 
 def main():
-    chk = core.Check(PROP, "model_checking")
-    mp = core.use_repo()
-    runner = cases.Runner(mp)
-    # --- M1: the oracle's lemmas ---
-    res = tlc.run_model("RoundingLemmas", chk.pick("RoundingLemmas_quick.cfg", "RoundingLemmas_thorough.cfg"))
-    if not res["ok"]:
-        chk.machinery("RoundingLemmas did not pass: %s\n%s" % (res.get("violated"), res["output"][-2000:]))
-    chk.add_model(res, "RoundingLemmas")
-    # --- M3 ---
+    chk = core.Check(PROP, LEVEL)
+    runner = cases.Runner(core.use_repo())
+    common.run_models(chk, [("RoundingLemmas", "RoundingLemmas_quick.cfg", "RoundingLemmas_thorough.cfg")])
     g = gen.G(chk.seed * 1000003 + 2)
-    n = chk.pick(6000, 120000)
-    cs = [c for c in gen_cases(g, n) if side_ok(c)]
-    for k in chk.known:                     # pinned representatives of known findings
-        pass
-    events, bad, byid = run_events(chk, cs, runner)
-    for ev in events[:3]:
-        chk.sample({"case": byid[ev["id"]], "outcome": ev["o"]})
-    for i, clauses in sorted(bad.items()):
-        if "post" in clauses:
-            c = byid[i]
-            chk.violation(key_of(c, ["post"]), "correct rounding violated for %s via %s at prec %d mode %s" % (
-                c["op"], c["lvl"], c["p"], c["r"]), c)
+    cs = arith.group_c02(g, chk.pick(5000, 120000))
+    common.judge_cases(chk, cs, runner, "post", "correct rounding violated")
     chk.cov["rule"] = ("seeded biased generator over add/sub/mul/div/sqrt/neg/abs/pos/constructors/fsum/fdot at four "
                        "entry levels; distinct = distinct (op, level, args, prec, mode); non-trivial = finite nonzero "
                        "operands and finite nonzero result")
@@ -191,16 +25,4 @@ def main():
 
 
 def replay(path):
-    import json
-    chk = core.Check(PROP, "model_checking")
-    mp = core.use_repo()
-    runner = cases.Runner(mp)
-    c = json.load(open(path))["replay"]
-    events, bad, byid = run_events(chk, [c], runner)
-    print("case:", c)
-    print("outcome:", events[0]["o"] if events else None)
-    print("verdict:", bad)
-    if bad:
-        print("VIOLATION property=%s replay=%s" % (PROP, path))
-        raise SystemExit(1)
-    raise SystemExit(0)
+    common.replay(PROP, LEVEL, path, "post")
